@@ -15,6 +15,7 @@
 """TBR Matched Markets preanalysis.
 """
 import copy
+import dataclasses
 import itertools
 from typing import Generator, List, Set, Text, TypeVar
 
@@ -430,9 +431,9 @@ class TBRMatchedMarkets:
       for d in design:
         treatment_geos = {self.data.geo_index[x] for x in d.treatment_geos}
         control_geos = {self.data.geo_index[x] for x in d.control_geos}
-        d.treatment_geos = treatment_geos
-        d.control_geos = control_geos
-        output_result.append(d)
+        output_result.append(
+            dataclasses.replace(
+                d, treatment_geos=treatment_geos, control_geos=control_geos))
 
     return output_result
 
